@@ -18,6 +18,8 @@ ASSUMPTIONS = [
     'library functions (Eval.apply_func clauses calling Model/Dates.v / Model/StrFuncs.v): C18\'s assumptions apply - ASCII strings for '
     'int(str) / date(str) / case folding, dates within date.min..date.max; C01_library_source_* additionally trust the PyMini semantics '
     'and the library primitives of Model/PrimsEnv.v (see C18)',
+    'dates stay within datetime.date.min..max: a statement on which Python\'s date arithmetic raises OverflowError("date value out of '
+    'range") is counted (coverage key date_overflow_cases_counted_not_compared), not compared - the model\'s dates are unbounded',
     'the generator resolves operator overloads itself from its own typing of the expression (independent of the compiler)',
     'translator tie (C01_source_row_loop): the WHERE condition and the target expressions are opaque callables assumed to behave as the model expressions on every row of the table (C01_source_* for the node classes) and not to raise (C04); query.table yields one context object per row, in order (prim attr:table)',
 ]
@@ -44,7 +46,7 @@ def _date_cast(v):
     return None
 
 
-def gen_case(rng, depth, cols=None, rows=None, allow_from=True):
+def gen_case(rng, depth, cols=None, rows=None, allow_from=True, unary_chains=0.0, lib=True):
     own_table = cols is None
     if cols is None:
         ncols = rng.randint(2, 6)
@@ -65,7 +67,7 @@ def gen_case(rng, depth, cols=None, rows=None, allow_from=True):
         rows = [r + (v,) for r, v in zip(rows, ovals)]
         model_rows = [r + (_dec_cast(v), _date_cast(v)) for r, v in zip(rows, ovals)]
         obj = {'o': (n0 + 1, n0 + 2)}
-    g = exprgen.Gen(rng, cols, max_depth=depth, obj=obj, lib=True, unary_chains=0.07)
+    g = exprgen.Gen(rng, cols, max_depth=depth, obj=obj, lib=lib, unary_chains=unary_chains)
     targets = [g.expr(rng.choice(exprgen.ALL_TYPES)) for _ in range(rng.randint(1, 3))]
     where = None
     mode = rng.random()
@@ -240,7 +242,7 @@ def unary_matrix_cases():
             out.append({'cols': cols, 'rows': rows, 'targets': targets, 'where': None, 'from': None,
                         'ops': ['unary-matrix/target'], 'depth': 2})
             ident = [('a', c0), ('b', c1)]
-            for ch in chains[:9] + chains[9:12:2]:
+            for ch in (nn, chains[9], nnn):          # NOT NOT x in both spellings, NOT NOT NOT x
                 for w in (ch, _un(UNARY[0], ch), (f'coalesce({ch[0]}, TRUE)', f'(ECoalesce [{ch[1]}; EConst (VBool true)])'),
                           _un(UNARY[1], ch)):
                     out.append({'cols': cols, 'rows': rows, 'targets': ident, 'where': w, 'from': None,
@@ -286,6 +288,40 @@ def null_strictness_sweep():
     return n, bad
 
 
+NEST_ROWS = [(1, True), (2, False), (None, None), (0, True)]
+NEST_FORMS = {
+    # form -> (innermost text, wrap one level, python: value of the innermost cell -> value after n levels)
+    'NOT (parenthesised)': ('b', lambda e: f'(NOT {e})', lambda a, b, n: (not b) if n % 2 else bool(b)),
+    'NOT NOT .. (no parentheses)': ('b', lambda e: f'NOT {e}', lambda a, b, n: (not b) if n % 2 else bool(b)),
+    'IS NULL': ('b', lambda e: f'({e} IS NULL)', lambda a, b, n: (b is None) if n == 1 else False),
+    '+ 1': ('a', lambda e: f'({e} + 1)', lambda a, b, n: None if a is None else a + n),
+    'parentheses': ('a', lambda e: f'({e})', lambda a, b, n: a),
+}
+
+
+def nesting_probe_one(form, n):
+    """None, or (statement, got, expected): an operator nested n deep over a column, against the value computed in Python
+    (property text: 'all well-typed expression trees of any depth')."""
+    leaf, wrap, py = NEST_FORMS[form]
+    e = leaf
+    for _ in range(n):
+        e = wrap(e)
+    sql = f'SELECT {e} FROM #t'
+    want = [(py(a, b, n),) for a, b in NEST_ROWS]
+    conn = impl.connection({'t': impl.make_table('t', [('a', int), ('b', bool)], NEST_ROWS)})
+    try:
+        got = conn.execute(sql).fetchall()
+    except Exception as ex:  # noqa: BLE001
+        got = 'raised ' + type(ex).__name__
+    if got != want or [type(r[0]) for r in got] != [type(r[0]) for r in want]:
+        return sql, got, want
+    return None
+
+
+NEST_DEPTHS = (2, 3, 4, 5, 6, 8, 10)
+NEST_DEEP = 40
+
+
 def shrink(c):
     base = c
 
@@ -320,11 +356,15 @@ def run(tier, rng):
     n = 2500 if tier == 'quick' else 40000
     depth = 3 if tier == 'quick' else 5
     cases = matrix_cases() + [gen_case(rng, rng.randint(1, depth)) for _ in range(n)]
+    # a further stream (after the first one, whose cases stay what they were): trees in which a bool node is, one time in four,
+    # a run of 2-4 directly nested NOT / IS NULL / IS NOT NULL over a non-constant bool operand
+    cases += [gen_case(rng, rng.randint(1, depth), unary_chains=0.25, lib=False) for _ in range(n // 4)]
     impl_out = core.pmap(run_impl, cases)
     model_out = model_many(cases)
     violations, seen = [], set()
     ophist, depth_hist = {}, {}
     distinct, nontrivial, errors = set(), 0, 0
+    date_overflows = 0
     for c, i, m in zip(cases, impl_out, model_out):
         key = statement(c) + repr(c['rows'])
         if key not in distinct:
@@ -337,6 +377,11 @@ def run(tier, rng):
         depth_hist[c['depth']] = depth_hist.get(c['depth'], 0) + 1
         if i[0] == 'exception':
             errors += 1
+        if i[:2] == ['exception', 'other:OverflowError'] and 'date value out of range' in str(i[2]):
+            # datetime.date arithmetic leaving year 1..9999 raises in Python; the model's dates are unbounded (ASSUMPTIONS):
+            # counted, not compared
+            date_overflows += 1
+            continue
         if i != m:
             if len(seen) >= 3:
                 continue
@@ -354,8 +399,30 @@ def run(tier, rng):
     for what, got in bad[:3]:
         violations.append(core.Violation('null-strictness', f'{what}: returned {got} instead of NULL',
                                          {'what': what, 'got': got}, signature='null:' + what))
+    nnest = 0
+    for form in NEST_FORMS:
+        for depth_n in NEST_DEPTHS:
+            nnest += 1
+            r = nesting_probe_one(form, depth_n)
+            if r:
+                violations.append(core.Violation('nesting', f'{r[0]} over rows {NEST_ROWS}: got {r[1]}, expected {r[2]}',
+                                                 {'nesting': [form, depth_n], 'statement': r[0], 'got': repr(r[1]), 'expected': repr(r[2])},
+                                                 signature=f'nesting:{form}:{depth_n}:{r[1] if isinstance(r[1], str) else "wrong value"}'))
+                break
+    deep = [(form, nesting_probe_one(form, NEST_DEEP)) for form in NEST_FORMS]
+    nnest += len(deep)
+    deep_bad = [(f, r) for f, r in deep if r]
+    if deep_bad:
+        kinds = sorted({r[1] if isinstance(r[1], str) else 'wrong value' for _, r in deep_bad})
+        f0, r0 = deep_bad[0]
+        violations.append(core.Violation(
+            'deep-nesting', f'operators nested {NEST_DEEP} deep ({", ".join(f for f, _ in deep_bad)}): {"; ".join(kinds)}; e.g. {r0[0][:120]}...',
+            {'nesting': [f0, NEST_DEEP], 'forms': [f for f, _ in deep_bad], 'statement': r0[0], 'got': repr(r0[1]), 'expected': repr(r0[2])},
+            signature=f'deep-nesting:depth {NEST_DEEP}:' + '+'.join(kinds)))
     cov = {
-        'evaluations': len(cases) + nsweep, 'distinct_nontrivial': nontrivial,
+        'nesting_probes': nnest,
+        'evaluations': len(cases) + nsweep + nnest, 'distinct_nontrivial': nontrivial,
+        'date_overflow_cases_counted_not_compared': date_overflows,
         'rule': 'random typed expression trees (depth<=%d) over tables of 2-6 typed columns, 0-12 rows, NULL density 0-50%%, used as '
                 'targets and as WHERE / FROM conditions; exhaustive depth-1 matrix: every modelled binary operator overload x all '
                 'pairs of pool values incl. NULL, zero, negatives, AND/OR/NOT/IS NULL/COALESCE truth tables over {NULL,TRUE,FALSE}^3; '
@@ -363,6 +430,7 @@ def run(tier, rng):
                 'unary-chain/n) and exhaustively at depth 2: every pair of those operators, NOT^2..NOT^4, spelled with and without parentheses, over '
                 'bool column / AND / OR / comparison / IN / BETWEEN / match / bool() / coalesce operands on all assignments of {NULL,..} to the operand '
                 'columns, each observed as a cell, under IS NULL, under COALESCE and as WHERE condition (unary_matrix_cases); '
+                'one operator nested 2-10 and 40 deep over a column vs the value computed in Python (nesting_probes); '
                 'NULL-strictness sweep over every registered function and operator overload x NULL position; '
                 'non-trivial = distinct (statement, table) with depth>=2, >=1 row and >=1 NULL' % depth,
         'samples': [statement(c) for c in cases[len(matrix_cases()):len(matrix_cases()) + 5]],
@@ -376,6 +444,8 @@ def run(tier, rng):
 
 
 def replay(rec):
+    if 'nesting' in rec:
+        return nesting_probe_one(rec['nesting'][0], rec['nesting'][1]) is None
     if 'case' not in rec:
         n, bad = null_strictness_sweep()
         return not bad
